@@ -70,7 +70,7 @@ type QuerySpec struct {
 }
 
 type Op struct {
-	Kind    string      `json:"k"`           // head | query | idle | restart
+	Kind    string      `json:"k"`           // head | query | idle | restart (head with queries: run between marker switch and SetTarget)
 	Head    int         `json:"h,omitempty"` // head: block index to make canonical head (-1 = genesis)
 	Queries []QuerySpec `json:"q,omitempty"` // query: run concurrently (1-2)
 	History uint64      `json:"hist,omitempty"`
@@ -351,6 +351,25 @@ func Gen(r *simcore.Rand, tier string) any {
 			p.Ops = append(p.Ops, Op{Kind: "restart", History: hist})
 		}
 	}
+	// some head operations are split: markers switched, 1-2 queries, then the target is delivered
+	{
+		h := g.num(p.StartHead)
+		hs := p.History
+		for i := range p.Ops {
+			switch p.Ops[i].Kind {
+			case "head":
+				h = g.num(p.Ops[i].Head)
+				if r.Bool(0.35) {
+					nq := r.Pick(3, 1) + 1
+					for k := 0; k < nq; k++ {
+						p.Ops[i].Queries = append(p.Ops[i].Queries, genQuery(r, h, hs))
+					}
+				}
+			case "restart":
+				hs = p.Ops[i].History
+			}
+		}
+	}
 	// always end with an idle check and a query
 	p.Ops = append(p.Ops, Op{Kind: "idle", Queries: []QuerySpec{genQuery(r, g.num(cur), hist)}})
 	p.Tape = r.Tape(1500)
@@ -380,7 +399,7 @@ func Shrink(pl any) []any {
 	}
 	// drop queries inside ops
 	for i, op := range p.Ops {
-		if len(op.Queries) > 1 || (len(op.Queries) == 1 && op.Kind == "idle") {
+		if len(op.Queries) > 1 || (len(op.Queries) == 1 && (op.Kind == "idle" || op.Kind == "head")) {
 			for j := range op.Queries {
 				q := clonePlan(p)
 				q.Ops[i].Queries = append(append([]QuerySpec{}, op.Queries[:j]...), op.Queries[j+1:]...)
@@ -1336,6 +1355,9 @@ func Run(t *testing.T, pl any) *simcore.Result {
 						w.res.KnownHit(crashKey)
 						w.mu.Unlock()
 					}
+					if len(op.Queries) > 0 && !w.drain() {
+						w.noteDisabled(where)
+					}
 					fork := w.setCanonical(nh)
 					if fork <= oldHead {
 						w.probe("reorg")
@@ -1347,6 +1369,20 @@ func Run(t *testing.T, pl any) *simcore.Result {
 						w.probe("head-moved-backwards")
 					}
 					w.observe(fmt.Sprintf("head -> %d (block %d) fork %d", nh.number, nh.idx, fork))
+					if len(op.Queries) > 0 {
+						// The node writes the canonical markers first and tells the indexer afterwards
+						// (chain event -> SetTarget): queries issued in between see the new chain while
+						// the index still follows the old one (possibly an abandoned fork).
+						w.probe("queries-before-target-delivery")
+						if fork <= oldHead {
+							w.probe("queries-before-target-delivery-after-reorg")
+						}
+						w.runQueries(op.Queries, "lag", qbase)
+						qbase += len(op.Queries)
+						if w.failed() {
+							break
+						}
+					}
 					w.maxTarget = max(w.maxTarget, nh.number)
 					w.fm.SetTarget(w.currentView(), 0, 0)
 					// quiescent point: an idle indexer picks the target up now, not in a real-time
@@ -1430,7 +1466,7 @@ func Checks() map[string]*simcore.Check {
 		},
 		Runs:       map[string]int{"quick": 2400, "thorough": 60000},
 		Gen:        Gen, Decode: Decode, Run: Run, Shrink: Shrink,
-		ProbeNames: []string{"queries", "query-nonempty-result", "query-index-behind-head", "query-tail-unindexed", "query-valid-range-trimmed", "query-unindexed-scan", "query-served-from-index-only", "query-match-all", "reorg", "reorg-depth>=8", "head-moved-backwards", "restart", "idle-tail-unindexed", "idle-tail-reindexed", "multi-epoch-index", "row-overflow", "indexer-switched-itself-off"},
+		ProbeNames: []string{"queries", "query-nonempty-result", "query-index-behind-head", "query-tail-unindexed", "query-valid-range-trimmed", "query-unindexed-scan", "query-served-from-index-only", "query-match-all", "queries-before-target-delivery-after-reorg", "reorg", "reorg-depth>=8", "head-moved-backwards", "restart", "idle-tail-unindexed", "idle-tail-reindexed", "multi-epoch-index", "row-overflow", "indexer-switched-itself-off"},
 	}}
 }
 
